@@ -216,7 +216,9 @@ def make_files(ctx):
                 ps = h.point_format.size
                 off = int.from_bytes(raw[96:100], "little")
                 base = {"version": version, "fmt": fmt, "n": n, "nev": nev, "ps": ps, "off": off,
-                        "extra_dims": len(list(h.point_format.extra_dimensions))}
+                        "extra_dims": len(list(h.point_format.extra_dimensions)),
+                        "truth": {"points": hx(lasio.rec_bytes(pts)), "vlrs": len(h.vlrs),
+                                  "evlrs": None if version != "1.4" else [[hx(u), r, hx(dd), hx(p)] for (u, r, dd, p) in map(lasio.vlr_tuple, evl)]}}
                 files.append(dict(base, cls="valid", raw=raw, label=f"{version}/fmt{fmt}/n{n}/evlrs{nev}/valid"))
                 if rng.random() < 0.3:
                     files.append(dict(base, cls="trailing", raw=raw + bytes(rng.randrange(256) for _ in range(rng.choice([1, 7, ps]))),
@@ -374,10 +376,14 @@ def observe_edits(ctx, files, tmp):
         with open(path, "wb") as fh:
             fh.write(f["raw"])
         cur = f["raw"]
-        with laspy.mmap(path) as m:
-            names = list(m.point_format.dimension_names)
-            pf = m.point_format
-            scaled_extra = {d.name for d in pf.extra_dimensions if d.scales is not None or d.offsets is not None}
+        try:
+            with laspy.mmap(path) as m:
+                names = list(m.point_format.dimension_names)
+                pf = m.point_format
+                scaled_extra = {d.name for d in pf.extra_dimensions if d.scales is not None or d.offsets is not None}
+        except Exception as ex:  # noqa
+            out.append({"file": f["label"], "raw_before": cur, "dim": None, "i": None, "err": f"{type(ex).__name__}: {ex}"[:200]})
+            continue
         for name in names:
             comp, foff, width, mask = field_of(pf, name)
             fdt = pf.dtype().fields[comp][0]
@@ -611,6 +617,11 @@ def search(ctx, seeds):
         if "err" in ref:
             add("a file written by laspy cannot be read by path", {"file": f["label"], "file_hex": f["raw"].hex()}, ref.get("msg"))
             continue
+        t = f["truth"]
+        if ref["ok"]["points"] != t["points"] or ref["ok"]["evlrs"] != t["evlrs"] or len(ref["ok"]["vlrs"]) != t["vlrs"]:
+            add("the path read differs from what was written", {"file": f["label"], "class": f["cls"], "kind": "path", "file_hex": f["raw"].hex()},
+                f"records equal: {ref['ok']['points'] == t['points']} ({ref['ok']['count']} read, {f['n']} written); "
+                f"evlrs equal: {ref['ok']['evlrs'] == t['evlrs']}; vlrs {len(ref['ok']['vlrs'])} read, {t['vlrs']} written")
         for (kind, e, c), got in f["runs"]:
             sk, _ = caps_of(kind)
             inp = {"file": f["label"], "class": f["cls"], "kind": kind, "read_evlrs": e, "chunk": c, "file_hex": f["raw"].hex()}
